@@ -228,3 +228,7 @@ for n in ["send_plan_noatt_enobufs_q", "send_plan_att_enobufs_q", "send_plan_noa
     HARNESSES[n]["mem_gb"] = 30   # a mutated sender made the 14 GB default run out of memory (=> inconclusive, not a verdict)
 
 H("modes_timeout_queued_then_hangup", ["C10", "C03"], sym="message bytes symbolic; a timed receive when data and the hang-up are both pending", bounds="unwind 8")
+
+for n in ["send_retry_first_single_att", "send_retry_first_frag_att", "send_retry_first_frag_noatt"]:
+    H(n, ["C13", "C04"], features="k_rec", sym="none (shape): 3000 / 9000 bytes with reported SO_SNDBUF 8192, the first one or two attempts refused with ENOBUFS, 0 or 2 attachments",
+      bounds="unwind 12", opt=["REACH_ERR"])
